@@ -185,6 +185,9 @@ pub struct HashCheck {
     pub op: u8,
     pub preimage: Vec<u8>,
     pub digest: Vec<u8>,
+    /// a later EQUAL / EQUALVERIFY compared this digest with an equal value (the script's committed
+    /// hash): only then has the path "checked a preimage"
+    pub matched: bool,
 }
 
 /// What happened during the execution of the last (innermost) script.
@@ -1030,6 +1033,11 @@ impl<'a, 'b> Evaluator<'a, 'b> {
                         let a = pop!();
                         let b = pop!();
                         let eq = a == b;
+                        if eq {
+                            if let Some(h) = self.trace.hash_checks.iter_mut().rev().find(|h| !h.matched && h.digest == a) {
+                                h.matched = true;
+                            }
+                        }
                         if opcode == 0x88 {
                             if !eq {
                                 return Err(VmError::EqualVerify);
@@ -1099,7 +1107,7 @@ impl<'a, 'b> Evaluator<'a, 'b> {
                             0xaa => sha256d::Hash::hash(&v).to_byte_array().to_vec(),
                             _ => unreachable!(),
                         };
-                        self.trace.hash_checks.push(HashCheck { op: opcode, preimage: v, digest: h.clone() });
+                        self.trace.hash_checks.push(HashCheck { op: opcode, preimage: v, digest: h.clone(), matched: false });
                         stack.push(h);
                     }
                     0xab => {
